@@ -121,6 +121,9 @@ def build(case):
     spec.notes['fortran'] = bool(o['fortran'])
     spec.notes['raw_symlink'] = bool(o['raw_symlink'])
     spec.notes['raw_same_name'] = case['seed'][2] % 3 == 1         # parts named run<k>/continuous.<ext>
+    spec.notes['raw_stray_byte'] = case['seed'][2] % 5 == 2        # the last raw file ends in the middle of a sample (one extra byte)
+    if o['names'] == 'alf' and case['seed'][2] % 4 == 1:
+        spec.notes['alf_samples_suffix'] = ['ks2', '7a3f'][case['seed'][2] % 8 == 1]      # spikes.samples.<extra part>.npy (ALF names may carry extra parts)
     spec.notes['ks2_templates_ind'] = bool(o['ks2_file'])
     spec.notes['npy_symlink'] = bool(o['npy_symlink'])
     spec.alf_store_samples = o['alf_store_samples']
@@ -217,8 +220,13 @@ def run_case(case, ctx):
             os.symlink(d, os.path.join(d0, 'link'))
             params = os.path.join(d0, 'link', 'params.py')
         elif form == 4:                     # relative to the current working directory
+            if case['seed'][2] % 12 == 4:
+                # ... and params.py is itself a link to a parameter file kept in another folder (shared between sessions)
+                os.makedirs(os.path.join(d0, 'shared config'))
+                os.replace(os.path.join(d, 'params.py'), os.path.join(d0, 'shared config', 'params_common.py'))
+                os.symlink(os.path.join(d0, 'shared config', 'params_common.py'), os.path.join(d, 'params.py'))
             os.chdir(d)
-            params = 'params.py'
+            params = 'params.py' if case['seed'][2] % 24 != 4 else Path('params.py')
         elif form == 5 and spec.raw is not None and spec.raw_ext != '.npy':
             # the working directory holds other files with the names of the (relative) raw data files
             decoy = os.path.join(d0, 'other session')
